@@ -13,6 +13,12 @@ from .sym import PathCtx, SBuf, Sym, Infeasible, Unsupported, PathBudget
 from .interp import Interp, PyRaise
 from . import contracts as C
 
+def _key(k):
+    """dict keys: values by repr, identity-hashed objects by their class (addresses differ between the two runs)"""
+    if type(k).__repr__ is object.__repr__:
+        return '<%s>' % type(k).__name__
+    return repr(k)
+
 def _norm(v, depth=0, seen=None):
     """comparable plain form of a value from either world"""
     if seen is None:
@@ -35,7 +41,7 @@ def _norm(v, depth=0, seen=None):
         return (type(v).__name__, [_norm(x, depth + 1, seen) for x in v])
     if isinstance(v, dict):
         try:
-            return ('dict', sorted((repr(k), _norm(x, depth + 1, seen)) for k, x in v.items()))
+            return ('dict', sorted((_key(k), _norm(x, depth + 1, seen)) for k, x in v.items()))
         except Exception:
             return ('dict', len(v))
     if isinstance(v, types.MethodType):
